@@ -561,3 +561,34 @@ Proof.
   - cbn. repeat split; auto; discriminate.
   - cbn. repeat split; auto; discriminate.
 Qed.
+
+(* ------------------------------------------------------------------ *)
+(** * LeastLoaded picks a least-loaded candidate *)
+
+Lemma least_go_min f : forall l best,
+  f (least_go f best l) <= f best /\ forall x, In x l -> f (least_go f best l) <= f x.
+Proof.
+  induction l as [|h t IH]; intros best; cbn [least_go]; [split; [lia|intros x []]|].
+  destruct (IH (if f h <? f best then h else best)) as [I1 I2].
+  destruct (f h <? f best) eqn:E.
+  - apply N.ltb_lt in E. split; [lia|]. intros x [<-|Hx]; [exact I1|apply I2, Hx].
+  - apply N.ltb_ge in E. split; [exact I1|]. intros x [<-|Hx]; [lia|apply I2, Hx].
+Qed.
+
+Lemma least_min f cands h : least f cands = Some h -> forall x, In x cands -> f h <= f x.
+Proof.
+  destruct cands as [|c0 ct]; cbn [least]; [discriminate|]. intros E x Hx. inversion E; subst.
+  destruct (least_go_min f ct c0) as [I1 I2]. destruct Hx as [<-|Hx]; [exact I1|apply I2, Hx].
+Qed.
+
+Lemma least_loaded_minimal_lemma s c key m h :
+  c_lb (cget s c) = PLeast m -> In h (picks (snd (select s c key))) ->
+  forall x, In x (candidates s (c_list (cget s c))) ->
+    measure m (hget (s_heap s) h) <= measure m (hget (s_heap s) x).
+Proof.
+  intros P H x Hx. unfold select in H.
+  destruct (candidates s (c_list (cget s c))) as [|c0 ct] eqn:E; [destruct Hx|].
+  rewrite P in H. cbn [lb_next snd] in H.
+  destruct (least (fun h0 => measure m (hget (s_heap s) h0)) (c0 :: ct)) as [r|] eqn:L; cbn in H; [|destruct H].
+  destruct H as [<-|[]]. apply (least_min _ _ _ L x Hx).
+Qed.
